@@ -171,6 +171,13 @@ class SQLiteBuilder(SQLBuilder):
     def FLOAT_NE(builder, a, b):
         a, b = builder(a), builder(b)
         return 'abs(', a, ' - ', b, ') / coalesce(nullif(max(abs(', a, '), abs(', b, ')), 0), 1) > 1e-14'
+    def eval_json_path(builder, values):
+        values = list(values)
+        if not builder.json1_available or not any(isinstance(value, int) and value < 0 for value in values):
+            return SQLBuilder.eval_json_path(values)
+        # json_extract() has no '[-1]': an index counted from the end is written '[#-1]' (SQLite 3.31+)
+        return '$' + ''.join('[#%d]' % value if isinstance(value, int) and value < 0
+                             else SQLBuilder.eval_json_path([value])[1:] for value in values)
     def JSON_QUERY(builder, expr, path):
         fname = 'json_extract' if builder.json1_available else 'py_json_extract'
         path_sql, has_params, has_wildcards = builder.build_json_path(path)
@@ -530,7 +537,7 @@ def py_json_unwrap(value):
 
 path_cache = {}
 
-json_path_re = re.compile(r'\[(-?\d+)\]|\.(?:(\w+)|"([^"]*)")', re.UNICODE)
+json_path_re = re.compile(r'\[#?(-?\d+)\]|\.(?:(\w+)|"([^"]*)")', re.UNICODE)
 
 def _parse_path(path):
     if path in path_cache:
